@@ -13,7 +13,7 @@ tree (witnesses below, reproduced on the real planner by `tools/props/c10.py`) a
 * T10.1 `C10_case_insensitive`, `C10_catalog_*` : `resolve_database_table` depends only on the
   lower-cased parts; names vs dicts, letter case of catalog names, `None` vs `[]`, list vs legacy
   dict give the *same* catalog (equality of the constructor's result).
-* T10.2 `C10_resolvers` (all inputs; `defaultOk`: see `C10_witness_6`), regression examples 1–2.
+* T10.2 `C10_resolvers`, `C10_resolvers_catalog` (all inputs; default namespace must be a known database), regression examples 1, 2, 6.
 * T10.3 `C10_partial_stripped`, `C10_partial_pushdown`, witnesses 3, 5.
 * T10.4 `C10_model_version`, `C10_model_noversion`, `C10_model_step_simple`, `C10_model_case`,
   `C10_model_join`, regression example 4.
@@ -69,6 +69,10 @@ theorem C10_catalog_case (i : CatalogIn) (l : List IntegSpec) :
     mkCatalog { i with integrations := some (l.map lowerSpec) } = mkCatalog { i with integrations := some l } :=
   mkCatalog_lowerSpec i l
 
+/-- letter case of `default_namespace` does not matter either (since 10d49ed) -/
+theorem C10_catalog_default_case (i : CatalogIn) :
+    mkCatalog { i with defaultNs := i.defaultNs.map lower } = mkCatalog i := mkCatalog_default_case i
+
 theorem C10_catalog_none (i : CatalogIn) :
     mkCatalog { i with integrations := none } = mkCatalog { i with integrations := some [] } :=
   mkCatalog_none_nil i
@@ -114,13 +118,23 @@ theorem C10_old_resolver_partial (c : Catalog) (parts : List Name) (hd : default
     (h : agreeClass c parts = true) : routeJoinOperandOld c parts = routeSimple c parts :=
   route_of_resolver_eq resolveJoinOld c parts hd hne (resolveJoinOld_eq_simple c parts h)
 
-/-- `default_namespace='Proj'` (not lower case): a join operand of the default namespace keeps the
-namespace as a qualifier in the fetched query; excluded from `C10_resolvers` by `defaultOk` -/
+/-- clause (i) for every catalog the constructor can build: the only hypothesis left is that the default
+namespace (if any) is one of the known databases -/
+theorem C10_resolvers_catalog (i : CatalogIn) (parts : List Name) (hk : defaultKnown (mkCatalog i) = true)
+    (hne : parts ≠ []) : routeJoinOperand (mkCatalog i) parts = routeSimple (mkCatalog i) parts :=
+  C10_resolvers (mkCatalog i) parts (defaultOk_mkCatalog i hk) hne
+
+/-- `default_namespace='Proj'` -/
 def catProj : Catalog := mkCatalog ⟨some [.nm n!"int1", .nm n!"int2"], none, .none, some n!"Proj"⟩
 
-theorem C10_witness_6 :
-    routeJoinOperand catProj [n!"t"] = .fetch n!"Proj" [n!"Proj", n!"t"] ∧
-    routeSimple catProj [n!"t"] = .fetch n!"Proj" [n!"t"] ∧ defaultOk catProj = false := by decide
+example : defaultKnown cat2 = true := by decide
+
+/-- regression (before 10d49ed the constructor kept `default_namespace` as given): with 'Proj' a join
+operand of the default namespace kept the namespace as a qualifier in the fetched query -/
+theorem C10_regression_6 :
+    routeJoinOperand { catProj with defaultNs := some n!"Proj" } [n!"t"] = .fetch n!"Proj" [n!"Proj", n!"t"] ∧
+    routeJoinOperand catProj [n!"t"] = .fetch n!"proj" [n!"t"] ∧
+    routeSimple catProj [n!"t"] = .fetch n!"proj" [n!"t"] := by decide
 
 /-! ## T10.3 -/
 
@@ -146,7 +160,7 @@ theorem planTop_spec (c : Catalog) (ctes : List Name) (q : Node) (steps : List S
   | none => simp [hc] at h
   | some i => simp only [hc, Option.some.injEq] at h; exact ⟨i, rfl, h.symm⟩
 
-/-- when no sub-tree sits in a slot the walker skips (CASE operand, `f(x FROM y)`, LIMIT/OFFSET, …)
+/-- when no sub-tree sits in a slot the walker skips (`f(x FROM y)`, LIMIT/OFFSET, `Delete.table`, …)
 a whole-query pushdown mentions only tables of the target integration (or CTE names) -/
 theorem C10_partial_pushdown (c : Catalog) (ctes : List Name) (q : Node) (steps : List Step)
     (hns : noSkip q = true) (h : planTop c ctes q = some steps) :
@@ -164,13 +178,14 @@ theorem C10_partial_pushdown (c : Catalog) (ctes : List Name) (q : Node) (steps 
 def Step.integration : Step → Name
   | .fetch i _ => i
 
-/-- `select case (select max(x) from int2.t2) when 1 then 2 end from int1.t1` -/
+/-- `select substring(x from (select max(a) from int2.t2)) from int1.t1`: `Function.from_arg` is a slot the
+walker does not visit (before a58885a the CASE operand was another one) -/
 def caseQuery : Node :=
   .scope (.sel false) (.cons .tbl (.ident [n!"int1", n!"t1"] false none)
-    (.cons .tgt (.plain (.cons .skip
+    (.cons .tgt (.func false (.cons .arg (.ident [n!"x"] false none) (.cons .skip
         (.scope (.sel false) (.cons .tbl (.ident [n!"int2", n!"t2"] false none)
-          (.cons .tgt (.func false (.cons .arg (.ident [n!"x"] false none) .nil)) .nil)))
-        (.cons .arg .leaf (.cons .arg .leaf .nil)))) .nil))
+          (.cons .tgt (.func false (.cons .arg (.ident [n!"a"] false none) .nil)) .nil)))
+        .nil))) .nil))
 
 /-- the whole query is sent to `int1` although it mentions `int2.t2` -/
 theorem C10_witness_3 :
